@@ -185,7 +185,9 @@ func TestC02(t *testing.T) {
 			return
 		}
 
-		sweep(t, rec)
+		if hx.FirstShard() {
+			sweep(t, rec)
+		}
 
 		hx.RapidCheck(t, rec, "streams", func(rt *rapid.T, fail func(string, string, any)) {
 			d := gen.D{T: rt}
